@@ -277,6 +277,9 @@ int filterDimension(size_t r5, size_t r4, size_t r3, size_t r2, size_t r1, size_
 		}
 	}
 
+	if(dim>=1 && c[0]==0) //every dimension has size 1: a single element, i.e. a 1-D array of length 1
+		c[0] = 1;
+
 	return dimensionCorrected;
 
 }
